@@ -1,0 +1,11 @@
+// Copyright (C) 2024, Ava Labs, Inc. All rights reserved.
+// See the file LICENSE for licensing terms.
+
+//go:build !verif
+
+// Package verifhook provides named observation points for runtime
+// verification. Without the "verif" build tag every call compiles to nothing.
+package verifhook
+
+// Point marks a named observation point. It is a no-op in this build.
+func Point(string) {}
